@@ -130,6 +130,9 @@ func RunC09(t *testing.T, tape *Tape) *Outcome {
 	o.Detail["mode"] = mode
 	o.Detail["program"] = prog.Src
 	o.Detail["bodies"] = prog.Desc
+	for _, b := range prog.Bodies {
+		o.FaultFired["probe:runs-with-body-"+bodyName[b]]++
+	}
 	if earlyFollow {
 		o.Desc += " +follow-up-eval-at-once"
 		o.Detail["early_follow_up"] = true
